@@ -2,6 +2,7 @@ package oneonone
 
 import (
 	"context"
+	"sync"
 
 	"berty.tech/go-orbit-db/iface"
 	"berty.tech/go-orbit-db/internal/vstub"
@@ -12,6 +13,7 @@ import (
 var verifHarnesses = map[string]func(){
 	"VerifC20ChannelID": VerifC20ChannelID,
 	"VerifC20Monitor":   VerifC20Monitor,
+	"VerifC20ConnectRace": VerifC20ConnectRace,
 }
 
 type recEmitter struct {
@@ -86,4 +88,38 @@ func VerifC20Monitor() {
 		vstub.Assert(script.Published[0].Topic == (&channels{selfID: other, logger: zap.NewNop()}).getChannelID(self), "C20 Send uses the channel name the other end listens on")
 		vstub.Assert(string(script.Published[0].Data) == string(payload), "C20 Send publishes the payload intact")
 	}
+}
+
+// VerifC20ConnectRace: two Connect calls for the same peer overlap (every
+// schedule with at most P preemptions at visible operations, a subscribe being
+// one); afterwards every payload of the remote peer is still delivered exactly once.
+func VerifC20ConnectRace() {
+	p := vstub.Param("P", 1)
+	self, other := peer.ID("self"), peer.ID("other")
+	em := &recEmitter{}
+	script := &vstub.ScriptedPubSub{LiveSubs: true, Always: []peer.ID{other}}
+	ctx, cancel := context.WithCancel(context.Background())
+	c := &channels{selfID: self, emitter: em, logger: zap.NewNop(), subs: map[peer.ID]*channel{},
+		ipfs: &vstub.PubSubCoreAPI{PS: script}, ctx: ctx, cancel: cancel}
+	vstub.ExploreSchedules(p)
+	var wg sync.WaitGroup
+	for k := 0; k < 2; k++ {
+		wg.Add(1)
+		go func() {
+			defer wg.Done()
+			if err := c.Connect(ctx, other); err != nil {
+				vstub.Fail("C20 Connect failed")
+			}
+		}()
+	}
+	wg.Wait()
+	vstub.ExploreSchedules(0)
+	vstub.Cover("connected")
+	body := vstub.NdBytes("body", 1)
+	script.Push(&vstub.Msg{Sender: other, Body: body})
+	vstub.WaitIdle()
+	vstub.Assert(len(em.got) == 1, "C20 a payload of the remote peer is delivered exactly once after overlapping Connect calls")
+	vstub.Assert(script.Subscribes == 1, "C20 one pairwise subscription per peer")
+	cancel()
+	vstub.WaitIdle()
 }
